@@ -288,6 +288,7 @@ SWEEP = ["test_future.cpp"]
 
 # name anchors (validated by tools/rename_sweep.py; a vanished name is exit 2, see core.check_anchor_names)
 ANCHORS = {
+    '_head': ['^babylon::FutureContext(<|$)'],
     'pointer': ['^babylon::FutureContext(<|$)'],
     'run_callback': ['^babylon::internal::future(<|$)'],
     'wake_all': ['^babylon::Futex(<|$)'],
